@@ -266,6 +266,65 @@ def run(project, chk):
             chk.check(ok7, "R7", f7.short, f"{pn}={norm_text(d7) if d7 is not None else '<required>'}", project.loc(f7.module, d7 if d7 is not None else f7.node), f"{f7.name}({pn}=False) by default", how="constant default False", nontrivial=False,
                       message=f"{pn} defaults to {norm_text(d7) if d7 is not None else 'no value'}: a plain call writes output / files without being asked")
 
+    # ---------------------------------------------------------------- R8: what the console preview is painted with
+    chk.rule("R8", "make_readable: once a hex rendering of the tuned colour has been computed on a path, that rendering (not the raw return value, which rich cannot parse for hsl()) is what to_console receives as a colour")
+    from sa.dataflow import solve as _solve
+    mk = project.func(MAKE)
+    kcfg = build_cfg(mk.node)
+    ksc = Scope(project, mk)
+    TOC = "cm_colors.core.visualiser.to_console"
+
+    def hex_kind(e) -> bool:
+        if isinstance(e, ast.Call) and isinstance(e.func, ast.Attribute) and e.func.attr == "to_hex":
+            return True
+        if isinstance(e, ast.Call) and ksc.resolve_call(e) == "cm_colors.core.conversions.rgb_to_hex":
+            return True
+        if isinstance(e, ast.JoinedStr):
+            specs = ["".join(x.value for x in v.format_spec.values if isinstance(x, ast.Constant)) for v in e.values if isinstance(v, ast.FormattedValue) and v.format_spec is not None]
+            return len(specs) == 3 and all(sp.endswith("x") for sp in specs) and any(isinstance(v, ast.Constant) and str(v.value).startswith("#") for v in e.values)
+        return False
+
+    def of_own_pair(e) -> bool:      # self.text.to_hex() / self.bg.to_hex(): the pair's own colours, not the tuned one
+        return isinstance(e, ast.Call) and isinstance(e.func, ast.Attribute) and norm_text(e.func.value) in ("self.text", "self.bg")
+    n_prev = 0
+    for knode in kcfg.nodes:
+        for e in node_exprs(knode):
+            for c in ast.walk(e):
+                if not (isinstance(c, ast.Call) and ksc.resolve_call(c) == TOC):
+                    continue
+                b8 = bind_args(project.func(TOC), c)
+                for pname in ("fg", "bg", "tuned_fg"):
+                    a = b8.get(pname)
+                    if not isinstance(a, ast.Name):
+                        continue
+                    n_prev += 1
+                    var = a.id
+
+                    def tr(node, state):
+                        x = node.ast
+                        hexes = [h for h in (ast.walk(x) if node.kind in ("stmt", "cond", "return") and x is not None else []) if isinstance(h, (ast.Call, ast.JoinedStr)) and hex_kind(h) and not of_own_pair(h)]
+                        if hexes:
+                            state = frozenset((v, k, d, True if k != "hex" else f) for (v, k, d, f) in state)
+                        st = node_stores(node)
+                        if not st:
+                            return state
+                        kept = {e4 for e4 in state if e4[0] not in st}
+                        if node.kind == "stmt" and isinstance(x, ast.Assign) and len(x.targets) == 1 and isinstance(x.targets[0], ast.Name):
+                            t = x.targets[0].id
+                            if hex_kind(x.value):
+                                return frozenset(kept | {(t, "hex", node.id, False)})
+                            if isinstance(x.value, ast.Name):
+                                src = {(t, k, d, f) for (v, k, d, f) in state if v == x.value.id}
+                                if src:
+                                    return frozenset(kept | src)        # a copy keeps the kind of what it copies
+                        return frozenset(kept | {(v, "raw", node.id, False) for v in st})
+                    IN8, _ = _solve(kcfg, frozenset((p0, "raw", -1, False) for p0 in mk.params()), tr, lambda n, l, st: None if l == "exc" else st, lambda n, inc: frozenset().union(*[s3 for _, _, s3 in inc]))
+                    bad = sorted({d for (v, k, d, f) in (IN8.get(knode.id) or ()) if v == var and f and k != "hex"})
+                    chk.check(not bad, "R8", mk.short, norm_text(c)[:100], project.loc(mk.module, c), f"to_console's `{pname}` is the hex rendering whenever one was computed on the path",
+                              how="definitions of the argument tracked together with 'a hex rendering of the tuned colour has been computed since'",
+                              message=f"to_console receives `{var}` as defined at line(s) {[kcfg.nodes[d].lineno if d >= 0 else 0 for d in bad]} although a hex rendering was computed after that definition: the preview is painted with the raw return value (an hsl() string makes rich raise ColorParseError, so show=True raises where the plain call returns)")
+    chk.floor("colour arguments of the console preview", n_prev, 3)
+
     # ---------------------------------------------------------------- R2..R4 per API function
     total_io_nodes = 0
     for q, file_param in ((MAKE, "save_report"), (BULK, "save_report")):
